@@ -205,3 +205,49 @@ Proof.
   pose proof (proj1 C02_ctxS_nonvacuous) as Wx. split; [exact Wx|]. split; [apply rcS_of_context; [exact Wx|lia]|].
   split; [apply ctxS_of_ctx; [exact Wx|lia|lia]|]. split; vm_compute; reflexivity.
 Qed.
+
+(** * the two models agree where they overlap: on graphs all of whose labels are scalars, get_rc_S IS get_rc_x *)
+Lemma flat_sn_of_x a : flat (sn_of_x a) = a.
+Proof. destruct a as [el ch am ar hc nb gh]. unfold flat, sn_of_x. simpl. destruct el, ch, ar, hc, nb; reflexivity. Qed.
+
+Lemma gmapn_gmapn {A A' A'' B} (h : A -> A') (h' : A' -> A'') (g : lgraph A B) : gmapn h' (gmapn h g) = gmapn (fun a => h' (h a)) g.
+Proof. unfold gmapn. simpl. rewrite map_map. reflexivity. Qed.
+
+Lemma gmapn_id_in {A B} (h : A -> A) (g : lgraph A B) : (forall n a, In (n, a) (gnodes g) -> h a = a) -> gmapn h g = g.
+Proof.
+  intros H. destruct g as [ns es]. unfold gmapn. simpl in *. f_equal.
+  induction ns as [|[n a] r IH]; simpl; [reflexivity|]. rewrite (H n a (or_introl eq_refl)). f_equal. apply IH. intros k b I. apply (H k b). right. exact I.
+Qed.
+
+Definition scalar_lab {T} (o : option (lab T)) : Prop := match o with Some (Pr _ _) => False | _ => True end.
+Lemma scalar_fix (b : snode) :
+  scalar_lab (n_el b) -> scalar_lab (n_ch b) -> scalar_lab (n_arom b) -> scalar_lab (n_hc b) -> scalar_lab (n_nb b) -> sn_of_x (flat b) = b.
+Proof.
+  destruct b as [el ch am ar hc nb gh]. unfold sn_of_x, flat. simpl.
+  destruct el as [[?|? ?]|], ch as [[?|? ?]|], ar as [[?|? ?]|], hc as [[?|? ?]|], nb as [[?|? ?]|]; simpl; intros; try contradiction; reflexivity.
+Qed.
+Lemma scalar_pick {T} k (o : option (lab T)) : scalar_lab o -> scalar_lab (pick k o).
+Proof. destruct k; simpl; auto. Qed.
+
+Theorem rcS_scalar K d m (g : xits) : wf g ->
+  get_rc_S K d m (gmapn sn_of_x g) = gmapn sn_of_x (get_rc_x K d m g).
+Proof.
+  intros W. set (gs := gmapn sn_of_x g). set (R := get_rc_S K d m gs).
+  assert (wf gs) as Ws by (apply wf_gmapn; exact W).
+  assert (gmapn flat R = get_rc_x K d m g) as Fl.
+  { unfold R. rewrite rcS_flat. unfold gs. rewrite gmapn_gmapn. f_equal. apply gmapn_id_in. intros n a _. apply flat_sn_of_x. }
+  rewrite <- Fl, gmapn_gmapn. symmetry. apply gmapn_id_in. intros n b I.
+  pose proof (rcS_wf K d m gs Ws) as WR. fold R in WR.
+  destruct (rcS_labels K d m gs (proj1 Ws) n b (assoc_nodup_in n (gnodes R) b (proj1 WR) I)) as (a & La & E1 & E2 & _ & E4 & E5 & E6 & _).
+  unfold gs in La. rewrite label_gmapn in La. destruct (label g n) as [a0|]; [|discriminate]. simpl in La. injection La as <-.
+  apply scalar_fix; [rewrite E1|rewrite E2|rewrite E4|rewrite E5|rewrite E6]; apply scalar_pick; unfold sn_of_x; simpl;
+    [destruct (x_el a0)|destruct (x_ch a0)|destruct (x_arom a0)|destruct (x_hc a0)|destruct (x_nb a0)]; exact Logic.I.
+Qed.
+
+Example C02_rcS_scalar_nonvacuous :
+  wf (emb ex_its) /\ gnodes (get_rc_x K_default true true (emb ex_its)) <> [] /\
+  get_rc_S K_default true true (gmapn sn_of_x (emb ex_its)) = gmapn sn_of_x (get_rc_x K_default true true (emb ex_its)).
+Proof.
+  assert (wf (emb ex_its)) as Wx by (apply (wf_gmap xn_of (fun e : iedge => (e, @None bool))); exact ex_its_wf).
+  split; [exact Wx|]. split; [vm_compute; discriminate|apply rcS_scalar; exact Wx].
+Qed.
